@@ -2,7 +2,7 @@
 defect11: == between two columns that may both be NULL. None == None holds in memory; NULL = NULL is not true in SQL.
 (!= was repaired with IS DISTINCT FROM, == between two columns and the ON clause of the equality join were not.)
 
-Run:  cd /tmp/hunt2/C07 && PYTHONPATH=/tmp/hunt2/C07/src:/tmp/hunt2/C07 /venv/bin/python HUNT/defect11.py
+Run:  cd /tmp/hunt2/C07 && PYTHONPATH=/repo/src:/tmp/hunt2/C07 /venv/bin/python HUNT/defect11.py
 Exits non-zero when the translated statement and the in-memory evaluation disagree (the defect is present).
 """
 import importlib, os, sys, tempfile, warnings
